@@ -933,6 +933,25 @@ fn main() {
         // small programs whose output is a closed form of "every task runs exactly once at its sample, before dsp"
         let progs = schedvm_programs();
         let only: Option<usize> = args.get(2).and_then(|s| s.parse().ok());
+        if args[1] == "schedvm-search" {
+            // every program in a child process: a closure that is dropped too early is undefined behaviour in the VM
+            let exe = std::env::current_exe().unwrap();
+            for (i, (_src, _expect, desc)) in progs.iter().enumerate() {
+                let out = std::process::Command::new(&exe).args(["schedvm-run", &i.to_string()]).output().unwrap();
+                let so = String::from_utf8_lossy(&out.stdout).to_string();
+                let clause = "SchedulerAudioWorker::on_sample::ensures[each task runs exactly once at the sample equal to its time, before dsp]";
+                if !out.status.success() {
+                    println!("FOUND index={i} value={desc:?} clause={clause} the VM process died ({}) -- a task closure was used after it had been dropped", out.status);
+                    return;
+                }
+                if let Some(rest) = so.trim().strip_prefix("FAILS ") {
+                    println!("FOUND index={i} value={desc:?} clause={clause} {}", rest.replace('\n', " "));
+                    return;
+                }
+            }
+            println!("NONE tried={}", progs.len());
+            return;
+        }
         for (i, (src, expect, desc)) in progs.iter().enumerate() {
             if let Some(o) = only { if o != i { continue; } }
             let got = std::panic::catch_unwind(|| run_vm_sched(src, expect.len()));
